@@ -79,6 +79,12 @@ FINDINGS = [
      'witness': {'doc': '*a %%I0%% b*', 'exts': [], 'configs': {}, 'fmt': 'xhtml', 'probe_first': True,
                  'slots': [{'i': 0, 'kind': 'inline', 'mode': 'atomic', 'where': 'own_tail', 'tag': 'p', 'ctag': 'kbd', 'payload': '**s** `k`', 'prio': 95,
                             'alone': True, 'atomic_wrap': True, 'attr': 'title', 'nested': True}]}},
+    {'id': 'F-C18-6', 'property': 'C18', 'status': 'open',
+     'what': 'an AtomicString that an inline processor returns AS A BARE STRING (no element) is inline-parsed again when its marker stands inside an inline '
+             'element found in the TAIL of a block child (a list item holding a heading followed by text): `* # H` / `*a X c*`; in a text, or directly in the tail, it is kept',
+     'witness': {'doc': '* # H\n*a %%I0%% c*', 'exts': [], 'configs': {}, 'fmt': 'xhtml', 'probe_first': True,
+                 'slots': [{'i': 0, 'kind': 'inline', 'mode': 'atomic', 'where': 'bare', 'tag': 'p', 'ctag': 'kbd', 'payload': '*x* `k`', 'prio': 95,
+                            'alone': True, 'atomic_wrap': True, 'attr': 'title', 'nested': True}]}},
     {'id': 'F-C18-4', 'property': 'C18', 'status': 'open',
      'what': 'footnotes looks for its PLACE_MARKER in every text and tail without skipping AtomicString: an atomic text containing '
              'the marker is replaced by / followed by the footnote block',
@@ -244,6 +250,8 @@ def _make_probe_ext(slots, fill):
 
         def handleMatch(self, m, data):
             slot = self.slot; x = content(self.md, slot); w = slot['where']
+            if w == 'bare':   # the processor returns the string itself instead of an element (as SimpleTextInlineProcessor does)
+                return x, m.start(0), m.end(0)
             el = etree.Element(slot['ctag'])
             if slot['mode'] == 'attr':
                 el.text = 'v'; el.set(slot['attr'], x)
@@ -460,6 +468,9 @@ def known_region(case, real, expected):
         # priority > 20 put them there: the block is then visited as a parent too), or a tree processor that runs after `inline` reads texts
         if s['kind'] == 'inline' and s['where'] == 'own_tail' and (s.get('nested') or exts & LATE_READERS or any(t['kind'] == 'tree' and t['prio'] > 20 for t in case['slots'])):
             return 'F-C18-5'
+        # F-C18-6: the inline processor returned the atomic string itself (only the witness does: `gen_slot` draws no such slot)
+        if s['kind'] == 'inline' and s['where'] == 'bare':
+            return 'F-C18-6'
         # F-C18-3: atomic TAIL OF A <br> (prettify makes it a plain str) and some later tree processor is loaded
         if s['ctag'] == 'br' and s['where'] in ('tail', 'child_tail') and s['kind'] != 'inline' and exts & LATE_READERS:
             return 'F-C18-3'
